@@ -369,6 +369,14 @@ func (l *breaker) markWordOptionUnused() {
 	l.isUnusedWord = true
 }
 
+// markWordOptionInvalid forgets the latest word option, which cannot be used
+// (it is inside a glyph cluster or on a previous line): it must not become the
+// previousWordBreak, or nextGraphemeBreak would skip the grapheme boundaries
+// before it without anyone having tried them.
+func (l *breaker) markWordOptionInvalid() {
+	l.unusedWordBreak = l.previousWordBreak
+}
+
 // nextGraphemeBreak returns the next grapheme cluster boundary break between
 // the previous and current word boundary, if any. If it returns false, there are no
 // more candidates between the previous and current word boundaries.
@@ -1057,6 +1065,7 @@ func (l *LineWrapper) wrapNextLine(config lineConfig) (done bool) {
 		switch result, candidateRun := l.processBreakOption(option, config); result {
 		case breakInvalid:
 			l.restore()
+			l.breaker.markWordOptionInvalid()
 			continue
 		case fits:
 			l.scratch.markCandidateBest(candidateRun)
